@@ -114,6 +114,17 @@ def normQuant : Option Quant → Option Quant
   | some q => if q.scale.isEmpty && q.zeroPoint.isEmpty && q.min.isEmpty && q.max.isEmpty then none else some q
   | none => none
 
+/-- which quantisation fields differ (for the problem text; min / max are compared exactly like scale / zero point) -/
+def quantDiff (a b : Option Quant) : String :=
+  match normQuant a, normQuant b with
+  | some x, some y =>
+    " ".intercalate ((if x.scale != y.scale then ["scale"] else []) ++ (if x.zeroPoint != y.zeroPoint then ["zero-point"] else []) ++
+      (if x.min != y.min then ["min"] else []) ++ (if x.max != y.max then ["max"] else []) ++
+      (if x.qdim != y.qdim then ["quantised-dimension"] else []))
+  | none, none => ""
+  | none, some _ => "added"
+  | some _, none => "dropped"
+
 /-- name, shape, element type, quantisation, variable flag -/
 def descEq (a b : PTensor) : Bool :=
   a.name == b.name && a.shape == b.shape && a.dtype == b.dtype && normQuant a.quant == normQuant b.quant &&
@@ -182,7 +193,7 @@ def interfacePairs (what : String) (src out : PGraph) (si oi : List Nat) : List 
       if ta.name != tb.name then some ⟨s!"interface-{what}-name", s!"position {pos}: {ta.name} vs {tb.name}"⟩
       else if ta.shape != tb.shape then some ⟨s!"interface-{what}-shape", s!"position {pos} {ta.name}: {ta.shape} vs {tb.shape}"⟩
       else if ta.dtype != tb.dtype then some ⟨s!"interface-{what}-type", s!"position {pos} {ta.name}: {ta.dtype} vs {tb.dtype}"⟩
-      else if normQuant ta.quant != normQuant tb.quant then some ⟨s!"interface-{what}-quantisation", s!"position {pos} {ta.name}"⟩
+      else if normQuant ta.quant != normQuant tb.quant then some ⟨s!"interface-{what}-quantisation", s!"position {pos} ({quantDiff ta.quant tb.quant}) {ta.name}"⟩
       else if ta.isVariable != tb.isVariable then some ⟨s!"interface-{what}-variable", s!"position {pos} {ta.name}"⟩
       else none
     | _, _ => some ⟨"dangling-index", s!"subgraph {what} position {pos}"⟩
@@ -374,7 +385,7 @@ def operandProblems (src out : PGraph) (byp : List Nat) (k b : Nat) (si oi : Lis
         else if ta.name != tb.name then some ⟨"operand-wiring", s!"operator {k} (builtin {b}) operand {pos}: {ta.name} vs {tb.name}"⟩
         else if ta.shape != tb.shape then some ⟨"operand-shape", s!"operator {k} (builtin {b}) operand {pos} {ta.name}: {ta.shape} vs {tb.shape}"⟩
         else if ta.dtype != tb.dtype then some ⟨"operand-type", s!"operator {k} (builtin {b}) operand {pos} {ta.name}: {ta.dtype} vs {tb.dtype}"⟩
-        else if normQuant ta.quant != normQuant tb.quant then some ⟨"operand-quantisation", s!"operator {k} (builtin {b}) operand {pos} {ta.name}"⟩
+        else if normQuant ta.quant != normQuant tb.quant then some ⟨"operand-quantisation", s!"operator {k} (builtin {b}) operand {pos} ({quantDiff ta.quant tb.quant}) {ta.name}"⟩
         else if ta.const != tb.const then some ⟨"operand-constant-data", s!"operator {k} (builtin {b}) operand {pos} {ta.name}: {ta.const} vs {tb.const}"⟩
         else some ⟨"operand-description", s!"operator {k} (builtin {b}) operand {pos} {ta.name}"⟩
       | _, _ => some ⟨"dangling-index", s!"operator {k} operand {pos}"⟩
@@ -387,7 +398,7 @@ def resultProblems (src out : PGraph) (k b : Nat) (so oo : List Nat) : List Prob
       if descEq ta tb && ta.const == tb.const then none
       else if ta.shape != tb.shape then some ⟨"result-shape", s!"operator {k} (builtin {b}) result {pos} {ta.name}: {ta.shape} vs {tb.shape}"⟩
       else if ta.dtype != tb.dtype then some ⟨"result-type", s!"operator {k} (builtin {b}) result {pos} {ta.name}: {ta.dtype} vs {tb.dtype}"⟩
-      else if normQuant ta.quant != normQuant tb.quant then some ⟨"result-quantisation", s!"operator {k} (builtin {b}) result {pos} {ta.name}"⟩
+      else if normQuant ta.quant != normQuant tb.quant then some ⟨"result-quantisation", s!"operator {k} (builtin {b}) result {pos} ({quantDiff ta.quant tb.quant}) {ta.name}"⟩
       else some ⟨"result-description", s!"operator {k} (builtin {b}) result {pos} {ta.name}"⟩
     | _, _ => some ⟨"dangling-index", s!"operator {k} result {pos}"⟩
 
